@@ -291,6 +291,27 @@ func (c *Ctx) c16query(s c16set, bounds geometry.AABB) (v3, string) {
 	}
 }
 
+// +0 or -0: NewRay / NewTemporalRay keep the sign of a zero direction component (1/dir = +Inf or -Inf in the slab test)
+func (c *Ctx) c16zero() float64 {
+	if c.Rng.Intn(2) == 0 {
+		return math.Copysign(0, -1)
+	}
+	return 0
+}
+
+// an axis-parallel direction (two zero components of random sign) and the origin 7 units before `through` on that axis
+func (c *Ctx) c16axisRay(through v3) (v3, v3) {
+	sgn := float64(1 - 2*c.Rng.Intn(2))
+	switch c.Rng.Intn(3) {
+	case 0:
+		return vector3.New(through.X()-7*sgn, through.Y(), through.Z()), vector3.New(sgn, c.c16zero(), c.c16zero())
+	case 1:
+		return vector3.New(through.X(), through.Y()-7*sgn, through.Z()), vector3.New(c.c16zero(), sgn, c.c16zero())
+	default:
+		return vector3.New(through.X(), through.Y(), through.Z()-7*sgn), vector3.New(c.c16zero(), c.c16zero(), sgn)
+	}
+}
+
 func c16sorted(l []int) []int {
 	o := append([]int(nil), l...)
 	sort.Ints(o)
@@ -511,21 +532,42 @@ func (c *Ctx) c16octreeCase() {
 		if target.Distance(o) < 1e-9 {
 			target = o.Add(vector3.New(1., 2., 3.))
 		}
-		if c.Rng.Intn(5) == 0 { // axis-parallel, exactly through an element vertex / box corner
-			tv := s.verts[c.Rng.Intn(len(s.verts))]
+		dirv := target.Sub(o)
+		switch c.Rng.Intn(6) {
+		case 0: // axis-parallel (zero components of either sign), exactly through an element vertex / box corner
+			target = s.verts[c.Rng.Intn(len(s.verts))]
+			o, dirv = c.c16axisRay(target)
+		case 1: // one zero component of either sign, origin level with an element vertex on that axis
+			target = s.verts[c.Rng.Intn(len(s.verts))]
 			switch c.Rng.Intn(3) {
 			case 0:
-				o, target = vector3.New(tv.X()-7, tv.Y(), tv.Z()), tv
+				o = vector3.New(target.X(), o.Y(), o.Z())
 			case 1:
-				o, target = vector3.New(tv.X(), tv.Y()+7, tv.Z()), tv
+				o = vector3.New(o.X(), target.Y(), o.Z())
 			default:
-				o, target = vector3.New(tv.X(), tv.Y(), tv.Z()-7), tv
+				o = vector3.New(o.X(), o.Y(), target.Z())
+			}
+			dirv = target.Sub(o)
+			if dirv.Length() < 1e-9 {
+				dirv = vector3.New(1., 2., 3.)
+			}
+			if dirv.X() == 0 {
+				dirv = vector3.New(c.c16zero(), dirv.Y(), dirv.Z())
+			}
+			if dirv.Y() == 0 {
+				dirv = vector3.New(dirv.X(), c.c16zero(), dirv.Z())
+			}
+			if dirv.Z() == 0 {
+				dirv = vector3.New(dirv.X(), dirv.Y(), c.c16zero())
 			}
 		}
-		ray := geometry.NewRay(o, target.Sub(o))
+		ray := geometry.NewRay(o, dirv)
 		dir := ray.Direction()
 		if dir.X() == 0 || dir.Y() == 0 || dir.Z() == 0 {
 			c.Note("ray.axis-parallel")
+		}
+		if (dir.X() == 0 && math.Signbit(dir.X())) || (dir.Y() == 0 && math.Signbit(dir.Y())) || (dir.Z() == 0 && math.Signbit(dir.Z())) {
+			c.Note("ray.negative-zero")
 		}
 		mn, mx := 0., 1e6
 		switch c.Rng.Intn(4) {
@@ -546,6 +588,15 @@ func (c *Ctx) c16octreeCase() {
 		trav := []int{}
 		tree.TraverseIntersectingRay(ray, mn, mx, func(i int, min, max *float64) { trav = append(trav, i) })
 		c.Emit("c16.holds.eq_scan", "traverse@"+where+" "+c16cnt(trav)+" "+c16cnt(scan), "true")
+		// independent truth: the driver evaluates the Lean slab model on every element box (the scan above uses the
+		// library's own box test, so a defect in that test would be wrong on both sides)
+		bx := make([]string, n)
+		for i := range boxes {
+			bx[i] = c16box(boxes[i])
+		}
+		rs := fmt.Sprint(n) + " " + strings.Join(bx, " ") + " " + c16v(ray.Origin()) + " " + c16v(dir) + " " + Fs(mn, mx)
+		c.Emit("c16.holds.ray_scan", "ray@"+where+" "+rs+" "+c16cnt(res), "true")
+		c.Emit("c16.holds.ray_scan", "traverse@"+where+" "+rs+" "+c16cnt(trav), "true")
 		if modelled {
 			rq := pre + " " + c16v(ray.Origin()) + " " + c16v(dir) + " " + Fs(mn, mx)
 			c.Emit("c16.oct.ray", rq, c16ids(res))
@@ -653,7 +704,12 @@ func (c *Ctx) c16sphereCase() {
 				continue
 			}
 			mn, mx := 0., 1e6
-			ray := rendering.NewTemporalRay(o, target.Sub(o), 0)
+			dirv := target.Sub(o)
+			if c.Rng.Intn(3) == 0 {
+				o, dirv = c.c16axisRay(target)
+				c.Note("bvh.spheres.axis-ray")
+			}
+			ray := rendering.NewTemporalRay(o, dirv, 0)
 			recL := rendering.NewHitRecord()
 			hitL := spheres.Hit(&ray, mn, mx, recL)
 			per := make([]string, 0, 2*n)
@@ -718,7 +774,13 @@ func (c *Ctx) c16bvhCase() {
 			if c.Rng.Intn(3) == 0 {
 				mx = target.Distance(o) * (0.5 + c.Rng.Float64())
 			}
-			ray := rendering.NewTemporalRay(o, target.Sub(o), 0)
+			dirv := target.Sub(o)
+			if c.Rng.Intn(3) == 0 { // axis-parallel through the target, zero components of either sign
+				o, dirv = c.c16axisRay(target)
+				mx = 1e6
+				c.Note("bvh.axis-ray")
+			}
+			ray := rendering.NewTemporalRay(o, dirv, 0)
 			recL := rendering.NewHitRecord()
 			hitL := singles.Hit(&ray, mn, mx, recL)
 			// each triangle on its own: the exhaustive scan
